@@ -7,11 +7,11 @@ PROP = dict(
                   files={"zz_verif_fixture_test.go": "harness/main/fixture_test.go",
                          "zz_verif_c02_test.go": "harness/main/c02_test.go"},
                   timeout=900, timeout_thorough=2400)],
-    technique="Coq proof of the response assembly (order-independent concurrent fetch, position sort, blockhash / previous-blockhash rule, epoch routing on top of the C18 FirstSuccess theorems) + end-to-end differential run of JSON-RPC and gRPC against generated epochs",
-    level_text="Theorems (Coq, no axioms): for every set of loaded epochs, every archived block and EVERY completion order of the concurrent fetches the reply carries slot, parent, time, height, blockhash, previous blockhash (parent in same epoch) and all transactions each once in position order (unique when positions are distinct); for every concurrency limit and schedule of the epoch search a signature archived in exactly one loaded epoch is routed there and an unarchived one is not-found. Tie: every block and (half of the) transactions of three generated epochs (incl. epoch 0 with genesis, multi-frame payloads, 1..4 entries per block) are requested through JSON-RPC in 4 encodings and through gRPC with epoch sets {1},{1,2},{0,1,2} and concurrency 1/NumCPU, compared field by field and byte by byte with the generator's truth; transaction order and previous-blockhash decisions are re-checked by the Coq model.",
+    technique="Coq proof of the response assembly (order-independent concurrent fetch, position sort, blockhash / previous-blockhash rule, epoch routing on top of the C18 FirstSuccess theorems) + end-to-end differential run of JSON-RPC and gRPC against generated epochs + slottools.CalcEpochForSlot / CalcEpochLimits / range overlap translated on every run (GoLite) and proved equal to the model's epoch routing",
+    level_text="Theorems (Coq, no axioms): for every set of loaded epochs, every archived block and EVERY completion order of the concurrent fetches the reply carries slot, parent, time, height, blockhash, previous blockhash (parent in same epoch) and all transactions each once in position order (unique when positions are distinct); for every concurrency limit and schedule of the epoch search a signature archived in exactly one loaded epoch is routed there and an unarchived one is not-found. Tie: every block and (half of the) transactions of three generated epochs (incl. epoch 0 with genesis, multi-frame payloads, 1..4 entries per block) are requested through JSON-RPC in 4 encodings and through gRPC with epoch sets {1},{1,2},{0,1,2} and concurrency 1/NumCPU, compared field by field and byte by byte with the generator's truth; transaction order and previous-blockhash decisions are re-checked by the Coq model.; slottools' epoch routing functions are translated from the Go source on every run and proved to be the model's epoch_of / epoch limits (C02_translated_* theorems)",
     level_note="Trusted: Coq kernel; hand-written model C02_Rpc.v; transport encoders (base58/base64/zstd/JSON), solana-go transaction (un)marshalling, fasthttp/grpc plumbing are exercised only by the differential run. Forced hypotheses: the signature is archived in exactly one loaded epoch (no cross-epoch 64-bit sig-exists + 24-bit sig-to-cid double collision); CIDs are not shared between loaded epochs (the offset cache is keyed by CID only, see known-findings).",
     design_ref="5 (C02)",
-    trusted=["model C02_Rpc.v of multiepoch-getBlock.go / grpc-server.go / multiepoch-getTransaction.go (hand-written; tied end to end on generated epochs)",
+    trusted=['translator gen/golite.go (Go leaf functions -> terms of the GoLite fragment, re-run on every check) and the semantics coq/GoLite.v (fixed-width wrap-around, panics on bad index / slice / shift / division, fuel for loops and calls; capacity identified with length; out-parameters for slices written through; aliasing of two arguments not detected) - DESIGN.md section 10a; exercised by the vm_compute examples of the property file', "model C02_Rpc.v of multiepoch-getBlock.go / grpc-server.go / multiepoch-getTransaction.go (hand-written; tied end to end on generated epochs)",
              "transport encoders and solana-go (un)marshalling are trusted libraries"] + COMMON_TRUSTED,
     assumptions=["signature archived in exactly one loaded epoch", "objects of different loaded epochs have different CIDs", "parent block archived when it lies in the same epoch"],
 )
